@@ -147,12 +147,14 @@ def QuietPD (pd : PD) : Prop :=
 
 /-- the cache is not ahead of PD: its entries are well-formed descriptions from the past — an entry sharing a key
     with a current region has a version not above it, and epochs known for a region id are not above the current ones
-    (true for everything loaded from earlier PD states when versions grow with every split/merge, as TiKV's do) -/
+    (true for everything loaded from earlier PD states when versions grow with every split/merge, as TiKV's do), and
+    an entry carrying the VerID of a current region is that region (a VerID determines the key range) -/
 def NotAhead (c : Cache) (pd : PD) : Prop :=
   (∀ e ∈ c.sorted, e.r.wf) ∧
   (∀ e ∈ c.sorted, ∀ p ∈ pd, overlaps e.r p.r = true → e.r.ver ≤ p.r.ver) ∧
   (∀ e ∈ c.sorted, ∀ p ∈ pd, p.r.id = e.r.id → e.r.ver ≤ p.r.ver ∧ e.r.confVer ≤ p.r.confVer) ∧
-  (∀ x ∈ c.latest, ∀ p ∈ pd, p.r.id = x.1 → x.2.ver ≤ p.r.ver ∧ x.2.confVer ≤ p.r.confVer)
+  (∀ x ∈ c.latest, ∀ p ∈ pd, p.r.id = x.1 → x.2.ver ≤ p.r.ver ∧ x.2.confVer ≤ p.r.confVer) ∧
+  (∀ e ∈ c.sorted, ∀ p ∈ pd, e.r.verID = p.r.verID → e.r = p.r)
 
 def ConvInv (c : Cache) (pd : PD) : Prop := Sorted c.sorted ∧ NotAhead c pd
 
@@ -213,7 +215,7 @@ theorem latestGet_mem {l : List (Nat × VerID)} {id : Nat} {v : VerID} (h : late
 /-- a current region is never refused -/
 theorem insert_ok {c : Cache} {pd : PD} (hi : ConvInv c pd) {q : PdRegion} (hq : q ∈ pd) {n : Entry}
     (hn : n.r = q.r) : (insertRegionToCache c n).2 = true := by
-  obtain ⟨_, hwf, h1, _, h3⟩ := hi
+  obtain ⟨_, hwf, h1, _, h3, _⟩ := hi
   have hstale : staleByLatest c.latest n.r = false := by
     unfold staleByLatest
     split
@@ -259,7 +261,7 @@ theorem insert_convInv {c : Cache} {pd : PD} (hq0 : QuietPD pd) (hi : ConvInv c 
     subst hok
     rcases insert_spec hins with ⟨hf, _⟩ | ⟨_, heq, _⟩
     · cases hf
-    · obtain ⟨hs, hwf, h1, h2, h3⟩ := hi
+    · obtain ⟨hs, hwf, h1, h2, h3, h4⟩ := hi
       obtain ⟨_, hpwf, hdis, hids⟩ := hq0
       have hmem : ∀ x ∈ c'.sorted, x = n ∨ x ∈ c.sorted := by
         intro x hx
@@ -267,7 +269,17 @@ theorem insert_convInv {c : Cache} {pd : PD} (hq0 : QuietPD pd) (hi : ConvInv c 
         rcases mem_insertSorted hx with h | h
         · exact Or.inl h
         · exact Or.inr (List.mem_filter.mp h).1
-      refine ⟨insert_sorted hins hs, ?_, ?_, ?_, ?_⟩
+      refine ⟨insert_sorted hins hs, ?_, ?_, ?_, ?_, ?_⟩
+      rotate_left 4
+      · intro x hx p hp hvid
+        rcases hmem x hx with rfl | hx
+        · rw [hn] at hvid ⊢
+          have hid : q.r.id = p.r.id := by
+            have := congrArg VerID.id hvid
+            simpa [Region.verID] using this
+          have := hids q hq p hp hid
+          subst this; rfl
+        · exact h4 x hx p hp hvid
       · intro x hx
         rcases hmem x hx with rfl | hx
         · unfold Region.wf; rw [hn]; exact hpwf q hq
@@ -295,7 +307,7 @@ theorem insert_convInv {c : Cache} {pd : PD} (hq0 : QuietPD pd) (hi : ConvInv c 
 
 theorem update_convInv {c : Cache} {pd : PD} (hi : ConvInv c pd) (v : VerID) (f : Entry → Entry)
     (hf : ∀ e, (f e).r = e.r) : ConvInv (c.update v f) pd := by
-  obtain ⟨hs, hwf, h1, h2, h3⟩ := hi
+  obtain ⟨hs, hwf, h1, h2, h3, h4⟩ := hi
   have hg : ∀ e : Entry, (if e.r.verID == v then f e else e).r = e.r := by
     intro e; split
     · exact hf e
@@ -305,7 +317,11 @@ theorem update_convInv {c : Cache} {pd : PD} (hi : ConvInv c pd) (v : VerID) (f 
     unfold Cache.update at hx
     obtain ⟨y, hy, rfl⟩ := List.mem_map.mp hx
     exact ⟨y, hy, hg y⟩
-  refine ⟨sorted_map_keep hs _ hg, ?_, ?_, ?_, h3⟩
+  refine ⟨sorted_map_keep hs _ hg, ?_, ?_, ?_, h3, ?_⟩
+  rotate_left 3
+  · intro x hx p hp hvid
+    obtain ⟨y, hy, hxy⟩ := hmem x hx
+    rw [hxy] at hvid ⊢; exact h4 y hy p hp hvid
   · intro x hx
     obtain ⟨y, hy, hxy⟩ := hmem x hx
     unfold Region.wf; rw [hxy]; exact hwf y hy
@@ -675,5 +691,167 @@ theorem attempts_bound {c : Cache} {pd : PD} (hq0 : QuietPD pd) (hi : ConvInv c 
       obtain ⟨c2, h2a, h2b, h2c⟩ := h2
       refine ⟨c2, 1, ?_, Nat.le_refl _, h2b, h2c⟩
       simp [attempts, h1, h2a]
+
+end CGV.Region
+
+namespace CGV.Region
+open CGV
+
+/-! ## several keys: what is settled stays settled while other keys are being driven -/
+
+/-- changing mutable bits keeps a key settled as long as its entry stays valid and unflagged -/
+theorem update_keeps_settled {c : Cache} {pd : PD} {k : Bytes} (hset : Settled c pd k) (v : VerID) (f : Entry → Entry)
+    (hf : ∀ e, (f e).r = e.r)
+    (hgood : ∀ e, searchByKey c.sorted k false = some e → e.r.verID = v → (f e).valid = true ∧ (f e).reload = false) :
+    Settled (c.update v f) pd k := by
+  obtain ⟨p, e, hp, hse, her, hev, herl⟩ := hset
+  have hg : ∀ x : Entry, (if x.r.verID == v then f x else x).r = x.r := by
+    intro x; split
+    · exact hf x
+    · rfl
+  refine ⟨p, if e.r.verID == v then f e else e, hp, ?_, ?_, ?_, ?_⟩
+  · unfold Cache.update
+    simp only
+    rw [searchByKey_map _ hg, hse]; rfl
+  · rw [hg e]; exact her
+  · split
+    · rename_i h; exact (hgood e hse (by simpa using h)).1
+    · exact hev
+  · split
+    · rename_i h; exact (hgood e hse (by simpa using h)).2
+    · exact herl
+
+theorem getRegion_unique {pd : PD} (hq0 : QuietPD pd) {k : Bytes} {p q : PdRegion} (hp : pd.getRegion k = some p)
+    (hq : q ∈ pd) (hqk : q.r.contains k = true) : q = p := by
+  obtain ⟨hpm, hpk⟩ := getRegion_spec hp
+  exact hq0.2.2.1 q hq p hpm (overlaps_of_contains hqk hpk)
+
+/-- an attempt for another key keeps a settled key settled -/
+theorem attempt_keeps_settled {c : Cache} {pd : PD} (hq0 : QuietPD pd) (hi : ConvInv c pd) {k : Bytes}
+    (hset : Settled c pd k) (k' : Bytes) (fb : Feedback) : Settled (attempt c pd k' fb).1 pd k := by
+  obtain ⟨p', hp'⟩ := hq0.1 k'
+  obtain ⟨hp'm, hp'k⟩ := getRegion_spec hp'
+  rcases locateKey_cases hi hp' with ⟨_, hloc⟩ | ⟨e', hse', hv', hr', hloc⟩ | ⟨e', hse', hv', hr', hloc⟩
+  · have : attempt c pd k' fb = ((insertRegionToCache c p'.toEntry).1, true) := by
+      unfold attempt; rw [hloc, hp']; simp
+    rw [this]
+    exact insert_keeps_settled hq0 hi hset hp'm rfl rfl rfl
+  · have hi1 := update_convInv hi e'.r.verID (fun x => { x with reload := false }) (fun _ => rfl)
+    have hs1 : Settled (c.update e'.r.verID (fun x => { x with reload := false })) pd k := by
+      apply update_keeps_settled hset e'.r.verID (fun x => { x with reload := false }) (fun _ => rfl)
+      intro e hse _
+      obtain ⟨p, e0, _, hse0, _, hev, _⟩ := hset
+      rw [hse] at hse0; cases hse0
+      exact ⟨hev, rfl⟩
+    have : attempt c pd k' fb =
+        ((insertRegionToCache (c.update e'.r.verID (fun x => { x with reload := false })) p'.toEntry).1, true) := by
+      unfold attempt; rw [hloc, hp']; simp
+    rw [this]
+    exact insert_keeps_settled hq0 hi1 hs1 hp'm rfl rfl rfl
+  · obtain ⟨he'm, he'c, _⟩ := searchByKey_greatest hi.1 hse'
+    by_cases heq : p'.r = e'.r
+    · have : attempt c pd k' fb = (c, true) := by
+        unfold attempt; rw [hloc, hp']; simp [heq]
+      rw [this]; exact hset
+    · have hatt : attempt c pd k' fb = (applyFeedback c pd e'.r fb, false) := by
+        unfold attempt; rw [hloc, hp']; simp [heq]
+      rw [hatt]
+      -- the settled entry does not carry the stale location's VerID
+      have hdiff : ∀ e, searchByKey c.sorted k false = some e → e.r.verID = e'.r.verID → False := by
+        intro e hse hvid
+        obtain ⟨p, e0, hp, hse0, her, _, _⟩ := hset
+        rw [hse] at hse0; cases hse0
+        obtain ⟨hpm, _⟩ := getRegion_spec hp
+        have h1 : e'.r = p.r := hi.2.2.2.2.2 e' he'm p hpm (by rw [← hvid, her])
+        have h2 : p = p' := getRegion_unique hq0 hp' hpm (by rw [← h1]; exact he'c)
+        subst h2
+        exact heq h1.symm
+      cases fb with
+      | invalidate =>
+        simp only [applyFeedback, Cache.invalidate]
+        exact update_keeps_settled hset _ _ (fun _ => rfl) (fun e hse hvid => absurd hvid (fun h => hdiff e hse h))
+      | needReload =>
+        simp only [applyFeedback]
+        exact update_keeps_settled hset _ _ (fun _ => rfl) (fun e hse hvid => absurd hvid (fun h => hdiff e hse h))
+      | epochNotMatch =>
+        simp only [applyFeedback]
+        split
+        · exact hset
+        · rename_i e0 _
+          unfold onRegionEpochNotMatch
+          split
+          · exact update_keeps_settled hset _ _ (fun _ => rfl)
+              (fun e hse hvid => absurd hvid (fun h => hdiff e hse h))
+          · split
+            · exact hset
+            · simp only
+              obtain ⟨p, hp⟩ := hq0.1 k
+              have hbase : ConvInv (if (!((epochNews e0.leader (pd.filter (fun q => overlaps e'.r q.r))).any
+                    (fun x => x.r.verID == e'.r.verID))) = true then c.invalidate e'.r.verID else c) pd ∧
+                  Settled (if (!((epochNews e0.leader (pd.filter (fun q => overlaps e'.r q.r))).any
+                    (fun x => x.r.verID == e'.r.verID))) = true then c.invalidate e'.r.verID else c) pd k := by
+                split
+                · exact ⟨update_convInv hi _ _ (fun _ => rfl),
+                    update_keeps_settled hset _ _ (fun _ => rfl)
+                      (fun e hse hvid => absurd hvid (fun h => hdiff e hse h))⟩
+                · exact ⟨hi, hset⟩
+              exact (foldl_insert_settles hq0 hp (epochNews e0.leader (pd.filter (fun q => overlaps e'.r q.r)))
+                (by
+                  intro n hn
+                  unfold epochNews at hn
+                  obtain ⟨m, hm, rfl⟩ := List.mem_map.mp hn
+                  exact ⟨rfl, rfl, m, (List.mem_filter.mp hm).1, rfl⟩)
+                hbase.1 (Or.inl hbase.2)).2
+
+theorem attempts_keeps_settled {c : Cache} {pd : PD} (hq0 : QuietPD pd) (hi : ConvInv c pd) {k : Bytes}
+    (hset : Settled c pd k) (n : Nat) (k' : Bytes) (fb : Feedback) (failed : Nat) :
+    Settled (attempts n c pd k' fb failed).1 pd k := by
+  induction n generalizing c failed with
+  | zero => exact hset
+  | succ n ih =>
+    simp only [attempts]
+    have h1 := attempt_keeps_settled hq0 hi hset k' fb
+    have h2 := (attempt_progress hq0 hi k' fb).1
+    cases ha : attempt c pd k' fb with
+    | mk c1 b =>
+      rw [ha] at h1 h2
+      cases b with
+      | true => exact h1
+      | false => exact ih h2 h1 _
+
+/-- drive a list of keys one after the other (at least two attempts allowed per key) -/
+def driveKeys (n : Nat) (pd : PD) (fb : Feedback) : List Bytes → Cache → Nat → Cache × Nat
+  | [], c, rejected => (c, rejected)
+  | k :: ks, c, rejected =>
+    match attempts (n + 2) c pd k fb 0 with
+    | (c1, some f) => driveKeys n pd fb ks c1 (rejected + f)
+    | (c1, none) => driveKeys n pd fb ks c1 (rejected + n + 2)
+
+theorem driveKeys_spec {pd : PD} (hq0 : QuietPD pd) (n : Nat) (fb : Feedback) (keys : List Bytes) {c : Cache}
+    (hi : ConvInv c pd) (rejected : Nat) (done : List Bytes) (hdone : ∀ k ∈ done, Settled c pd k) :
+    ConvInv (driveKeys n pd fb keys c rejected).1 pd ∧
+      (∀ k ∈ done ++ keys, Settled (driveKeys n pd fb keys c rejected).1 pd k) ∧
+      (driveKeys n pd fb keys c rejected).2 ≤ rejected + keys.length := by
+  induction keys generalizing c rejected done with
+  | nil => exact ⟨hi, (by simpa [driveKeys] using hdone), (by simp [driveKeys])⟩
+  | cons k ks ih =>
+    obtain ⟨c1, f, hatt, hf, hs1, hi1⟩ := attempts_bound hq0 hi k fb n
+    have hkeep : ∀ k0 ∈ done, Settled c1 pd k0 := by
+      intro k0 hk0
+      have := attempts_keeps_settled hq0 hi (hdone k0 hk0) (n + 2) k fb 0
+      rw [hatt] at this; exact this
+    simp only [driveKeys, hatt]
+    have := ih hi1 (rejected + f) (done ++ [k]) (by
+      intro k0 hk0
+      rcases List.mem_append.mp hk0 with h | h
+      · exact hkeep k0 h
+      · simp only [List.mem_singleton] at h; subst h; exact hs1)
+    refine ⟨this.1, ?_, ?_⟩
+    · intro k0 hk0
+      apply this.2.1
+      simpa using hk0
+    · have h3 := this.2.2
+      simp only [List.length_cons]
+      omega
 
 end CGV.Region
